@@ -12,7 +12,10 @@ int g_in_child = 0;
 
 static bool san_dirty(const blob *err) {
     if(err->n == 0) return false;
-    return memmem(err->p, err->n, "Sanitizer", 9) || memmem(err->p, err->n, "runtime error", 13);
+    /* "WARNING: AddressSanitizer failed to allocate" is the allocator returning NULL as configured - not a report */
+    return memmem(err->p, err->n, "ERROR: AddressSanitizer", 23) || memmem(err->p, err->n, "runtime error:", 14) ||
+           memmem(err->p, err->n, "WARNING: ThreadSanitizer", 24) || memmem(err->p, err->n, "ERROR: LeakSanitizer", 20) ||
+           memmem(err->p, err->n, "ERROR: UndefinedBehaviorSanitizer", 33) || memmem(err->p, err->n, "DEADLYSIGNAL", 12);
 }
 
 /* compact summary of the sanitizer output: headline lines + first frames that lie in the repository */
@@ -124,6 +127,9 @@ void run_cases(int n, case_fn fn, void *ctx, run_opts o, FILE *out) {
         long tmo = (long)o.timeout_ms + 50L * (b - a);
         child_res r = run_child(a, b, fn, ctx, (int)tmo);
         bool clean = r.exit_code == 0 && r.sig == 0 && !san_dirty(&r.err);
+        if(!clean && getenv("VF_DEBUG")) {
+            fprintf(stderr, "batch [%d,%d) not clean: exit=%d sig=%d err=%.*s\n", a, b, r.exit_code, r.sig, (int)(r.err.n > 600 ? 600 : r.err.n), (char *)r.err.p);
+        }
         if(clean) {
             fwrite(r.out.p, 1, r.out.n, out);
         } else if(b - a == 1) {
